@@ -177,7 +177,22 @@ func VH_C17_ArrayCopy() {
 		}
 	}
 	// independence: mutate one, the other is unchanged
-	if vhChoose("mutate", 2) == 0 {
+	switch mut := vhChoose("mutate", 4); {
+	case mut >= 2:
+		// a type change of one leaves the other's type alone, in memory and after reopening
+		target, other, otherID := cp, a, a.SlabID()
+		if mut == 3 {
+			target, other, otherID = a, cp, cp.SlabID()
+		}
+		vhAssert(target.SetType(vTypeInfo{id: 77}) == nil, "type change of one array")
+		vhAssert(vhTic(target.Type(), vTypeInfo{id: 77}), "type change applied")
+		vhAssert(vhTic(other.Type(), vTypeInfo{id: 42}), "type of the other array unaffected")
+		ro, rerr := NewArrayWithRootID(storage, otherID)
+		vhAssert(rerr == nil && vhTic(ro.Type(), vTypeInfo{id: 42}), "type of the other array unaffected after reopening")
+		vhReach("copy-done")
+		return
+	}
+	if vhChoose("mutate2", 2) == 0 {
 		err = cp.Append(vElem{tag: 9, size: vhRange32("newsz", 1, 117)})
 		vhAssert(err == nil, "mutate copy")
 		vhAssert(a.Count() == uint64(n), "source unaffected by mutating the copy")
@@ -322,7 +337,17 @@ func VH_C17_MapCopy() {
 		target, tmodel, taddr = cp, &cmodel, vhAddr(2)
 	}
 	_ = taddr
-	switch vhChoose("op", 3) {
+	switch vhChoose("op", 4) {
+	case 3: // a type change of one leaves the other's type alone
+		other := cp
+		if target == cp {
+			other = m
+		}
+		vhAssert(target.SetType(vTypeInfo{id: 77}) == nil, "type change of one map")
+		vhAssert(vhTic(target.Type(), vTypeInfo{id: 77}), "type change applied")
+		vhAssert(vhTic(other.Type(), vTypeInfo{id: 42}), "type of the other map unaffected")
+		vhReach("mapcopy-done")
+		return
 	case 0: // remove any key
 		i := vhChoose("which", len(*tmodel))
 		ks, vs, err := target.Remove(vhCompare, vhHip, (*tmodel)[i].key)
